@@ -287,6 +287,21 @@ class TablesProp:
         out.mismatches = len(mism)
         out.mismatch_examples = [{"stream": "tables", "op": m[0], "impl": m[1], "model": m[2]} for m in mism[:10]]
         out.stream_info.append({"stream": "tables", "ops": len(ops), "exhaustive": True, "mismatches": len(mism)})
+        # the same look-ups inside one process each, in three orders (as generated, reversed, the two CVSS versions
+        # alternating): a table entry must not depend on what the process looked up before
+        alt = sorted(range(len(ops)), key=lambda i: (i % 97, ops[i].split(" ")[1:2], ops[i][:2]))
+        orders = {"one process, generated order": list(range(len(ops))), "one process, reversed": list(range(len(ops) - 1, -1, -1)),
+                  "one process, versions alternating": alt}
+        base = dict(zip(ops, go))
+        for oname, idx in orders.items():
+            oo = [ops[i] for i in idx]
+            og = core.run_sharded(core.HARNESS, oo, shards=1)
+            bad = [(o, g) for o, g in zip(oo, og) if base.get(o) != g]
+            out.stream_info.append({"stream": oname, "ops": len(oo), "exhaustive": True, "mismatches": len(bad)})
+            out.evaluations += len(oo)
+            for o, g in bad[:5]:
+                out.violations.append((o, "the entry depends on what the process looked up before (%s): %s, elsewhere %s"
+                                       % (oname, g[:80], (base.get(o) or "")[:80]), g, base.get(o) or ""))
         # judge against the specification tables
         get = {}
         val = {}
@@ -1220,6 +1235,7 @@ def history_facts(hops, results, skip=0):
                     if st[1] == 1 and own:
                         # into a fresh object: the outcome may depend on the string only
                         fact = ("same-outcome", first.setdefault(key, res) == res)
+                        keyed.append(((ver, lvl, lvl, a[1], "D"), res))
                     else:
                         # into a used object the receiver's state is an input of Decode: outcome kept verbatim
                         fact = res
